@@ -149,6 +149,30 @@ def run_impl_polled(k, n, script, polls):
     return seen, [v[1] for v in rs.value], rs.n
 
 
+def run_impl_saved(k, n, script, at, how):
+    """like run_impl, but after observation `at` the accumulator is replaced by its saved-and-restored self (a check-point; a trip to
+    another process); returns (value read right after the restore, final reservoir, final n)"""
+    import copy
+    import pickle
+    import generatorpipeline.accumulators as A
+    rs = A.ReservoirSampling(length=k)
+    src = Scripted(script)
+    old = A.random
+    A.random = src
+    seen = None
+    try:
+        for i in range(n):
+            rs.accumulate(('pos', i))
+            if i == at:
+                rs = pickle.loads(pickle.dumps(rs)) if how == 'pickle' else (copy.deepcopy(rs) if how == 'deepcopy' else copy.copy(rs))
+                seen = ([v[1] if isinstance(v, tuple) and len(v) == 2 else repr(v) for v in rs.value], rs.n)
+    except Exception as e:  # noqa
+        return seen, ['!%s: %s' % (type(e).__name__, e)], -1
+    finally:
+        A.random = old
+    return seen, [v[1] if isinstance(v, tuple) and len(v) == 2 else repr(v) for v in rs.value], rs.n
+
+
 class _Echo:
     """an observation whose disposal is itself observed: when the last reference goes, a note about it is fed to the same reservoir (a frame
     whose finaliser reports to the statistics) — possibly in the middle of the accumulate() call that evicts it"""
@@ -265,6 +289,19 @@ def check(ctx):
             if (res5, cnt5) != (res, cnt):
                 ctx.fail('reservoir-looks-into-observation', 'with observations that are accumulators the reservoir holds positions %s (n=%s); with '
                          'ordinary objects %s (n=%s)' % (res5, cnt5, res, cnt), dict(case, observations='accumulators'))
+        if n >= 1 and rng.random() < 0.6:
+            # a reservoir that is saved and restored along the way — while it is still filling as well as later
+            at = rng.randrange(min(n, k)) if (k >= 2 and rng.random() < 0.6) else rng.randrange(n)
+            how = rng.choice(['pickle', 'deepcopy', 'copy'])
+            seen6, res6, cnt6 = run_impl_saved(k, n, draws, at, how)
+            ctx.count('saved_and_restored_runs')
+            want_seen = run_impl(k, at + 1, draws[:max(0, at + 1 - k)])[0]
+            if seen6 is None or seen6 != (want_seen, at + 1):
+                ctx.fail('reservoir-changed-by-saving', 'restored (%s) after %d observations the reservoir reports %s; it held %s (n=%d)' % (
+                    how, at + 1, seen6, want_seen, at + 1), dict(case, saved_after=at + 1, how=how))
+            elif (res6, cnt6) != (res, cnt):
+                ctx.fail('reservoir-changed-by-saving', 'saved and restored (%s) after %d observations the reservoir ends as %s (n=%s); undisturbed it ends as %s (n=%s)' % (
+                    how, at + 1, res6, cnt6, res, cnt), dict(case, saved_after=at + 1, how=how))
         if n >= 2:
             # an accumulator that is polled while it runs (live display) reports, each time, what an accumulator that saw only
             # that prefix reports, and ends like the one that was never read
